@@ -91,11 +91,23 @@ FieldsPrograms ==
 
 \* ---- seeded sample of the full cross product ------------------------------
 Pick(q, k, a, b) == q[((a * k + b * Seed) % Len(q)) + 1]
+\* three programs out of four draw from the values without a separator / with well-typed numbers and hashes only:
+\* once such values are refused at start-up (fixes of F15a, F15b, F15d) a program containing one ends there
+VersionAdm == SelectSeq(VersionSeq, LAMBDA v : ~Attr(v).sep)
+BuildAdm   == SelectSeq(BuildSeq, LAMBDA b : b \in {"42597", "0", "007"})
+KeyAdm     == << <<>>, <<H3>>, <<HU>> >>
+PathAdm    == SelectSeq(PathSeq, LAMBDA p : p = <<>> \/ ~Attr(p[1]).sep)
+HostAdm    == SelectSeq(HostSeq, LAMBDA h : ~Attr(h).sep)
+CfgPathAdm == SelectSeq(CfgPathSeq, LAMBDA h : ~Attr(h).sep)
 SampleProgram(k) ==
-  LET b == [Base EXCEPT !.version = Pick(VersionSeq, k, 7, 3), !.build = Pick(BuildSeq, k, 11, 5),
-                        !.keyring = Pick(KeySeq, k, 13, 7), !.pc = Pick(PcSeq, k, 17, 11), !.bc = Pick(BcSeq, k, 19, 13),
-                        !.cdn_path = Pick(PathSeq, k, 23, 17), !.product = Pick(ProductSeq, k, 29, 19)]
-      c == [hosts |-> Pick(HostSeq, k, 31, 23), path |-> Pick(CfgPathSeq, k, 37, 29)]
+  LET adm == k % 4 # 0
+      b == [Base EXCEPT !.version = Pick(IF adm THEN VersionAdm ELSE VersionSeq, k, 7, 3),
+                        !.build = Pick(IF adm THEN BuildAdm ELSE BuildSeq, k, 11, 5),
+                        !.keyring = Pick(IF adm THEN KeyAdm ELSE KeySeq, k, 13, 7), !.pc = Pick(PcSeq, k, 17, 11),
+                        !.bc = Pick(BcSeq, k, 19, 13), !.cdn_path = Pick(IF adm THEN PathAdm ELSE PathSeq, k, 23, 17),
+                        !.product = IF adm THEN "wow" ELSE Pick(ProductSeq, k, 29, 19)]
+      c == [hosts |-> Pick(IF adm THEN HostAdm ELSE HostSeq, k, 31, 23),
+            path |-> Pick(IF adm THEN CfgPathAdm ELSE CfgPathSeq, k, 37, 29)]
   IN Prog("sample", c, <<b>>, IF Tier = "quick" THEN QueriesFor(b.product, {"version", "cdn_path"}) ELSE AllQueries(b.product))
 SamplePrograms == {SampleProgram(k) : k \in 1..NSample}
 
